@@ -54,6 +54,12 @@ def run(ctx):
                            "what": f"{v['kind']} on altered {v['site']} ({v['alteration']}) "
                                    f"base={v['replay']['base']} path={v['replay']['generic_path']} {json.dumps(d)[:200]}",
                            "replay": v["replay"]})
+    # regression cases of repaired findings (corpus files with "expect_outcome")
+    for r in rep.get("corpus_regressions_failed", []):
+        violations.append({"class": f"regression:{r.get('finding') or r['file']}",
+                           "what": f"repaired finding {r.get('finding')} is back: corpus/c15/{r['file']} expected {r['expected']!r}, "
+                                   f"the real builder gave {r['got']!r}",
+                           "replay": {"case": r["replay"]}})
     # model side
     driver = os.path.join(ctx["driver_dir"], "p3r_driver_c15")
     with open(f"{out}/c15.cases") as fin:
@@ -95,6 +101,7 @@ def run(ctx):
            "model_lines_uni_only": rep.get("model_lines"),
            "violation_class_counts": rep.get("violation_classes"),
            "corpus_witnesses_reproduced": rep.get("corpus_witnesses_reproduced", []),
+           "corpus_regression_cases_passed": rep.get("corpus_regressions_passed", []),
            "known_not_reproduced": []}
     return violations, cov
 
@@ -107,8 +114,16 @@ CHECK = {
         "P3R.C15.uni_ok_validated", "P3R.C15.uni_ok_fri_validated", "P3R.C15.uni_no_panic_partial",
         "P3R.C15.panicGuards_necessary", "P3R.C15.uni_malformed_rejected_partial", "P3R.C15.honest_shapes_ok",
         "P3R.Witness.C15.malformed_rejected_full_false", "P3R.Witness.C15.no_panic_full_false",
-        "P3R.Witness.C15.degree_bits_panics", "P3R.Witness.C15.pow_witnesses_short_panics",
-        "P3R.Witness.C15.commit_extra_panics", "P3R.Witness.C15.log_arity_panics",
+        "P3R.C15.run_append", "P3R.C15.run_err_of_must_prefix", "P3R.C15.fri_pow_mismatch_err",
+        "P3R.C15.fri_height_overflow_err", "P3R.C15.open_input_height_err", "P3R.C15.uni_pow_mismatch_err",
+        "P3R.C15.uni_pow_mismatch_outcome",
+        "P3R.Witness.C15.degree_bits_panics", "P3R.Witness.C15.log_arity_panics",
+        "P3R.Witness.C15.pow_witnesses_short_rejected", "P3R.Witness.C15.pow_witnesses_short_record",
+        "P3R.Witness.C15.commit_extra_rejected", "P3R.Witness.C15.commit_extra_record",
+        "P3R.Witness.C15.log_final_poly_len_max_rejected", "P3R.Witness.C15.schedule_too_short_rejected",
+        "P3R.Witness.C15.schedule_too_short_record", "P3R.Witness.C15.degree_bits_plus1_rejected",
+        "P3R.Witness.C15.degree_bits_plus1_record",
+        "P3R.Witness.C15.domain_below_cap_panics",
         "P3R.Witness.C15.cap_empty_panics", "P3R.Witness.C15.cap_not_pow2_panics",
         "P3R.Witness.C15.prep_short_panics", "P3R.Witness.C15.log_blowup_panics",
         "P3R.Witness.C15.query_dropped_accepted", "P3R.Witness.C15.cap_resized_accepted",
@@ -130,7 +145,10 @@ CHECK = {
         "proof's width before validating it",
         "non-ZK TwoAdicFriPcs with Merkle-tree MMCS (arity 2), extension degree 4, all matrices of one round of the "
         "uni-STARK share the trace height (single height group); hiding PCS / arity-4 MMCS / WHIR shapes are not enumerated",
-        "full statements are false today: the negations are proved on concrete shape vectors (P3R.Witness.C15) and every "
+        "fixes C15-1/2/3 applied: F9b, F9c, F9j, F9k, F9l, F9o (and the overflow part of F9i, the degree+1 part of F9a) are "
+        "repaired; their corpus cases are regression cases (expect_outcome = err) and a return is a VIOLATION "
+        "(class regression:<id>, plus the unlisted panic class, plus a model disagreement for the modelled ones)",
+        "full statements are still false: the negations are proved on concrete shape vectors (P3R.Witness.C15) and every "
         "witness is replayed on the real builders each run (corpus/c15); the _partial theorems carry the decidable "
         "hypothesis PanicGuards (no-panic) and additionally quantify the accepted family (any query count >= 1, any "
         "power-of-two cap sizes) in uni_ok_validated",
@@ -152,7 +170,8 @@ MANIFEST_ENTRY = {
         "text": "for every shape vector and environment: accepted => every validated component has its expected value "
                 "(uni-STARK + FRI + MMCS caps), no panic under the explicit guard hypothesis, well-formed shapes accepted; the "
                 "full statements (never panics / every malformed shape rejected) are refuted on concrete witnesses replayed on "
-                "the real code (14 known findings); model tied to the Rust by outcome-exact comparison on every single "
+                "the real code (10 known findings with fixes C15-1/2/3 applied; the repaired ones are proved rejected "
+                "for every shape: fri_pow_mismatch_err, fri_height_overflow_err, open_input_height_err); model tied to the Rust by outcome-exact comparison on every single "
                 "alteration of 3 uni bases and on seeded pairs; batch-STARK builder judged on the real code only",
         "design_ref": "4/C15",
     },
